@@ -16,6 +16,7 @@ type Spec struct {
 	Closes    int         // expected Conn.Close calls (-1: do not check)
 	Query     *QSpec      // query-event scenarios (C15 oracle)
 	Store     bool        // store contention scenarios (C11 oracle)
+	Index     bool        // index maintenance scenario (C13 oracle)
 	Epochs    int
 }
 
@@ -192,6 +193,9 @@ func Judge(sp *Spec, r *vsched.Result) []string {
 	}
 	if sp.Store {
 		return JudgeStore(r)
+	}
+	if sp.Index {
+		return JudgeIndex(r)
 	}
 	return out
 }
